@@ -21,7 +21,7 @@ HNext ==
          \/ H(WakeClosed(c), <<"WakeClosed", c>>) \/ H(Proceed(c), <<"Proceed", c>>)
          \/ H(CancelDone(c), <<"CancelDone", c>>) \/ H(CancelLock(c), <<"CancelLock", c>>)
          \/ AllowCtx /\ H(CtxCancel(c), <<"CtxCancel", c>>)
-    \/ H(LoopRead, <<"LoopRead">>) \/ H(LoopExit, <<"LoopExit">>) \/ H(LoopLock, <<"LoopLock">>)
+    \/ H(LoopRead, <<"LoopRead">>) \/ H(LoopExit, <<"LoopExit">>) \/ H(LoopReadErr, <<"LoopReadErr">>) \/ H(LoopLock, <<"LoopLock">>)
     \/ H(LoopSelDone, <<"LoopSelDone">>) \/ H(LoopSelSend, <<"LoopSelSend">>)
     \/ AllowClose /\ H(CloseStart, <<"CloseStart">>)
     \/ H(CloseDone, <<"CloseDone">>) \/ H(CloseReturn, <<"CloseReturn">>)
@@ -32,7 +32,7 @@ HSpec == HInit /\ [][HNext]_hvars
 Quiet == /\ \A c \in Callers : cs[c].pc = "returned"
          /\ lp.pc \in {"read", "exited"}
 SchedJson == ToJson([cfg |-> [T |-> T, tries |-> Tries, bufcap |-> BufCap, xid |-> [i \in 1..Cardinality(Callers) |-> XidOf[i]],
-                              urgent |-> Urgent, timed |-> Timed, wfault |-> WFault],
+                              urgent |-> Urgent, timed |-> Timed, wfault |-> WFault, rfault |-> RFault],
                      steps |-> hist])
 \* printed once per complete behaviour (all calls returned)
 EmitWhenQuiet == Quiet => PrintT("CASE " \o SchedJson)
